@@ -168,7 +168,7 @@ func hdrByte(r *hx.Rng, hevcMode bool) byte { return hdrByteP(r, hevcMode, false
 
 // parameter-set heavy palettes: duplicate / absent sets, non-video units between them, sets after the video unit
 var avcPsTypes = []int{7, 8, 7, 8, 6, 9, 5, 1}
-var hevcPsTypes = []int{32, 33, 34, 33, 34, 32, 39, 35, 19, 1, 33, 34}
+var hevcPsTypes = []int{32, 33, 34, 33, 34, 32, 39, 35, 19, 1, 33, 34, 31}
 
 func hdrByteP(r *hx.Rng, hevcMode, ps bool) byte {
 	if r.Intn(8) == 0 && !ps {
@@ -462,13 +462,39 @@ func streamFns(hevcMode bool, r *hx.Rng, in []byte) {
 	}
 }
 
+// presentType: the type of one of the units a length-field walk of `in` meets (also a truncated last one),
+// two times out of three; otherwise (or when there is none) a type from the table.
+func presentType(hevcMode bool, r *hx.Rng, in []byte) int {
+	var ts []int
+	for pos := 0; pos+4 < len(in); {
+		n := int(binary.BigEndian.Uint32(in[pos : pos+4]))
+		pos += 4
+		ts = append(ts, typeOf(hevcMode, in[pos:pos+1]))
+		if n > len(in)-pos {
+			break
+		}
+		pos += n
+	}
+	k, pick := r.Intn(3), r.U64()
+	if len(ts) > 0 && k != 0 {
+		if k == 1 {
+			return ts[len(ts)-1]
+		}
+		return ts[pick%uint64(len(ts))]
+	}
+	if hevcMode {
+		return hevcTypes[pick%uint64(len(hevcTypes))]
+	}
+	return avcTypes[pick%uint64(len(avcTypes))]
+}
+
 func sampleFns(hevcMode bool, r *hx.Rng, in []byte) {
 	emit("s2b", "-", in)
 	emit("gnfs", "-", in)
 	if hevcMode {
 		emit("hevc_fnt", "-", in)
 		emit("hevc_fntv", "-", in)
-		emit("hevc_cnt", strconv.Itoa(hevcTypes[r.Intn(len(hevcTypes))]), in)
+		emit("hevc_cnt", strconv.Itoa(presentType(true, r, in)), in)
 		emit("hevc_rap", "-", in)
 		emit("hevc_idr", "-", in)
 		emit("hevc_hps", "-", in)
@@ -476,7 +502,7 @@ func sampleFns(hevcMode bool, r *hx.Rng, in []byte) {
 	} else {
 		emit("avc_fnt", "-", in)
 		emit("avc_fntv", "-", in)
-		emit("avc_cnt", strconv.Itoa(avcTypes[r.Intn(len(avcTypes))]), in)
+		emit("avc_cnt", strconv.Itoa(presentType(false, r, in)), in)
 		emit("avc_idr", "-", in)
 		emit("avc_hps", "-", in)
 		emit("avc_gps", "-", in)
